@@ -840,6 +840,27 @@ def sym_isfinite(x):
     return math.isfinite(x)
 
 
+def sym_isclose(a, b, rel_tol=1e-09, abs_tol=0.0):
+    """math.isclose over symbolic numbers: |a-b| <= max(rel_tol*max(|a|,|b|), abs_tol)"""
+    if not _anysym([a, b]):
+        return math.isclose(a, b, rel_tol=rel_tol, abs_tol=abs_tol)
+    a_, b_ = (a if isinstance(a, SymNum) else SymNum(_real(lift(a)))), (b if isinstance(b, SymNum) else SymNum(_real(lift(b))))
+    d = abs(a_ - b_)
+    big = sym_max(abs(a_), abs(b_))
+    return (d <= big * rel_tol) | (d <= abs_tol)
+
+
+def _guard_c_function(name, fn):
+    """a C-level math function imported by name into a library module: it would read a symbolic number as its placeholder
+    float - refuse instead of modelling it silently wrong"""
+    def guarded(*a, **k):
+        if _anysym(list(a) + list(k.values())):
+            raise Unsupported(f"math.{name} of a symbolic number is not modelled")
+        return fn(*a, **k)
+    guarded.__name__ = name
+    return guarded
+
+
 def install_shims():
     """Override float/max/min/sqrt as module globals in every loaded hexital.* module.
     Nothing in /repo is edited; with plain python values the shims behave like the builtins."""
@@ -852,6 +873,11 @@ def install_shims():
         d["min"] = sym_min
         if "sqrt" in d:
             d["sqrt"] = sym_sqrt
+        if "isclose" in d:
+            d["isclose"] = sym_isclose
+        for k, v in list(d.items()):
+            if getattr(v, "__module__", None) == "math" and callable(v) and k not in ("sqrt", "isclose", "isfinite"):
+                d[k] = _guard_c_function(k, v)
         if d.get("math") is math:
             d["math"] = _MathShim
     from . import symtime
